@@ -252,6 +252,164 @@ def elbo_checks(c, o_dir):
     return out, o
 
 
+
+# --------------------------------------------------------------------------------------------------
+# resumed runs, every split point, both implementations, both trace-log spaces
+# --------------------------------------------------------------------------------------------------
+
+SCHEDULE_REF = """
+base = n_eigenvalues // n_batches
+remainder = n_eigenvalues % n_batches
+full_batches = [base + 1] * remainder + [base] * (n_batches - remainder)
+full_batches = [batch for batch in full_batches if batch > 0]
+batches = []
+skip = n_precomputed
+for batch in full_batches:
+    if skip >= batch:
+        skip -= batch
+        continue
+    if skip > 0:
+        batch -= skip
+        skip = 0
+    batches.append(batch)
+"""
+
+
+def schedule_anchor(path):
+    """The batch-schedule statements of `_eigsh` in `path` must be, statement for statement, the
+    ones quoted in coq/C34/Model.v (full_batches / skip_batches).  Returns None or a message."""
+    import ast
+    tree = ast.parse(open(path).read())
+    fs = [n for n in ast.walk(tree) if isinstance(n, ast.FunctionDef) and n.name == "_eigsh"]
+    if len(fs) != 1:
+        return "%s: function _eigsh not found exactly once" % path
+    ref = [ast.unparse(x) for x in ast.parse(SCHEDULE_REF).body]
+    for node in ast.walk(fs[0]):
+        body = getattr(node, "body", None)
+        if not isinstance(body, list):
+            continue
+        for blk in (body, getattr(node, "orelse", []) or []):
+            txt = [ast.unparse(x) for x in blk]
+            for i in range(len(txt) - len(ref) + 1):
+                if txt[i:i + len(ref)] == ref:
+                    return None
+    return "%s: the batch schedule of _eigsh is not the one modelled in coq/C34/Model.v" % path
+
+
+def resume_cases(ctx):
+    rng = ctx.rng(3403)
+    out = []
+    # (nd, ns, k, nb): k < n_rel (truncated, eigsh from the start) and k = n_rel (all eigenvalues)
+    confs = [(6, 8, 6, 3), (6, 8, 5, 2), (7, 5, 5, 3)] if ctx.quick else \
+            [(6, 8, 6, 3), (6, 8, 5, 2), (7, 5, 5, 3), (6, 7, 6, 2), (8, 6, 4, 3), (5, 9, 5, 4), (7, 7, 6, 4)]
+    for j, (nd, ns, k, nb) in enumerate(confs):
+        m = gen_model(rng, nd=nd, ns=ns)
+        # well separated spectrum: make the rows of R of clearly different size
+        R = np.array(m["R"])
+        for i in range(min(nd, ns)):
+            R[i, i] += (i + 1) * 1.5
+        m["R"] = R.tolist()
+        for impl, space in (("jax", "signal"), ("jax", "data"), ("classic", "signal")):
+            if ctx.quick and j > 0 and impl == "jax" and space == "signal":
+                continue
+            out.append({"kind": "resume", "model": m, "k": k, "nb": nb, "impl": impl, "space": space})
+    return out
+
+
+def _classic_objects(m):
+    import nifty.cl as ift
+    R, sig, d = np.array(m["R"]), np.array(m["sig"]), np.array(m["d"])
+    nd, ns = R.shape
+    dom, tgt = ift.UnstructuredDomain(ns), ift.UnstructuredDomain(nd)
+
+    class _Mat(ift.LinearOperator):
+        def __init__(self):
+            self._domain = ift.DomainTuple.make(dom)
+            self._target = ift.DomainTuple.make(tgt)
+            self._capability = self.TIMES | self.ADJOINT_TIMES
+
+        def apply(self, x, mode):
+            self._check_input(x, mode)
+            v = x.asnumpy()
+            return ift.makeField(self._tgt(mode), R @ v if mode == self.TIMES else R.T @ v)
+    N = ift.DiagonalOperator(ift.makeField(tgt, sig ** 2))
+    lh = ift.GaussianEnergy(data=ift.makeField(tgt, d), inverse_covariance=N.inverse) @ _Mat()
+    ham = ift.StandardHamiltonian(lh)
+    Lam = np.eye(ns) + R.T @ np.diag(1 / sig ** 2) @ R
+    mean = np.linalg.solve(Lam, R.T @ (d / sig ** 2))
+    w, U = np.linalg.eigh(Lam)
+    Lmh = U @ np.diag(w ** -0.5) @ U.T
+    res = [ift.makeField(dom, np.sqrt(ns) * Lmh[:, k]) for k in range(ns)]
+    sl = ift.ResidualSampleList(ift.makeField(dom, mean), res + res, [False] * ns + [True] * ns)
+    return ham, sl
+
+
+def _one_elbo(c, extra, outdir=None):
+    """one ELBO run of the configured implementation; returns (mean, lower_error, elbo_lw, eigsh batch sizes)."""
+    m, k, nb = c["model"], c["k"], c["nb"]
+    nrel = min(np.array(m["R"]).shape)
+    kw = dict(n_batches=nb, min_lh_eval=-1.0, verbose=False)
+    if k == nrel:
+        kw["compute_all"] = True
+    if outdir is not None:
+        kw["output_directory"] = outdir
+    kw.update(extra)
+    if c["impl"] == "jax":
+        o = run_elbo(m, k, record_batches=True, trace_log_space=c["space"], metric_jit=False,
+                     **{a: b for a, b in kw.items() if a != "verbose"})
+        return o["stats"]["elbo_mean"], o["stats"]["lower_error"], o["stats"]["elbo_lw"], o["batches"]
+    import nifty.cl as ift
+    from nifty.cl import evidence_lower_bound as celb
+    ham, sl = _classic_objects(m)
+    proxy = EigshProxy(celb.ssl)
+    celb.ssl = proxy
+    try:
+        e, st = ift.estimate_evidence_lower_bound(ham, sl, k, **kw)
+    finally:
+        celb.ssl = proxy.real
+    f = lambda x: float(np.asarray(x.asnumpy())) if hasattr(x, "asnumpy") else float(x)
+    return f(st["elbo_mean"]), f(st["lower_error"]), f(st["elbo_lw"]), proxy.ks
+
+
+def run_resume(c, splits=None):
+    """one-go run with saved eigensystem, then a resumed run from EVERY split point 1..k-1."""
+    import tempfile
+    k = c["k"]
+    with tempfile.TemporaryDirectory(dir=scratch()) as tmp:
+        ref = _one_elbo(c, {}, outdir=tmp)
+        ev = np.load(os.path.join(tmp, "metric_%s_eigenvalues.npy" % c["space"]))
+        vecs = np.load(os.path.join(tmp, "metric_%s_eigenvectors.npy" % c["space"]))
+    out = {"ref": ref, "n_saved": int(ev.size), "splits": {}}
+    for p in (splits or range(1, k)):
+        out["splits"][int(p)] = _one_elbo(c, {"resume_eigenvalues": ev[:p].copy(), "resume_eigenvectors": vecs[:, :p].copy()})
+    return out
+
+
+def resume_checks(c, o):
+    k, nb = c["k"], c["nb"]
+    nrel = min(np.array(c["model"]["R"]).shape)
+    out = []
+    if k < nrel:          # the one-go run is iterative as well
+        out.append(("batches", "batches_case %d %d 0 %s" % (k, nb, C.clist(["%d%%nat" % x for x in o["ref"][3]]))))
+    for p, r in sorted(o["splits"].items()):
+        out.append(("batches-resume", "batches_case %d %d %d %s" % (k, nb, p, C.clist(["%d%%nat" % x for x in r[3]]))))
+    return out
+
+
+def resume_failure(c, o):
+    if o["n_saved"] != c["k"]:
+        return ("elbo-resume", "one-go run saved %d eigenvalues, %d requested" % (o["n_saved"], c["k"]))
+    a = o["ref"]
+    for p, r in sorted(o["splits"].items()):
+        if sum(r[3]) != c["k"] - p:
+            return ("elbo-resume", "%s ELBO (%s space) resumed from %d of %d eigenpairs computes %d more eigenvalues instead of %d" % (
+                c["impl"], c["space"], p, c["k"], sum(r[3]), c["k"] - p))
+        for name, x, y in (("elbo_mean", a[0], r[0]), ("lower_error", a[1], r[1]), ("elbo_lw", a[2], r[2])):
+            if abs(x - y) > 1e-8 * max(1.0, abs(x)):
+                return ("elbo-resume", "%s ELBO (%s space, %d eigenvalues in %d batches) resumed from %d eigenpairs: %s = %.12g, one go %.12g" % (
+                    c["impl"], c["space"], c["k"], c["nb"], p, name, y, x))
+    return None
+
 # --------------------------------------------------------------------------------------------------
 # direct oracle
 # --------------------------------------------------------------------------------------------------
@@ -286,6 +444,8 @@ def direct_failure(c):
             if np.max(np.abs(ritz - ev)) > 1e-8 * scale:
                 return ("lanczos-spectrum", "at full order the eigenvalues of T differ from those of A by %.2e" % np.max(np.abs(ritz - ev)))
         return None
+    if k == "resume":
+        return resume_failure(c, run_resume(c))
     if k == "slq":
         return _direct_slq(c)
     if k == "elbo_full":
@@ -395,12 +555,19 @@ class C34(C.Check):
         "the not-computed eigenvalues are at most the smallest computed one (the solver returns the largest first) and at least 1",
     ]
 
+    def translate(self, ctx):
+        for rel in ("nifty/re/evidence_lower_bound.py", "nifty/cl/evidence_lower_bound.py"):
+            msg = schedule_anchor(os.path.join(ctx.repo, rel))
+            if msg:
+                raise C.TranslationError(msg)
+
     def correspondence(self, ctx, res):
         _setup()
         checks, meta, dist = [], [], {}
         self.cases = []
         nontriv = set()
-        cases = [c for c in ctx.corpus() if c.get("kind") in ("lanczos", "elbo")] + lanczos_cases(ctx) + elbo_cases(ctx)
+        cases = [c for c in ctx.corpus() if c.get("kind") in ("lanczos", "elbo", "resume")] + lanczos_cases(ctx) + elbo_cases(ctx) + resume_cases(ctx)
+        self.resume_obs = []
         for c in cases:
             try:
                 if c["kind"] == "lanczos":
@@ -408,6 +575,12 @@ class C34(C.Check):
                     cs = lanczos_checks(c, o)
                     nst = int(np.sum(o["beta"] > 0))
                     nontriv.add(("lanczos", len(c["v"]), c["order"], nst < c["order"]))
+                elif c["kind"] == "resume":
+                    o = run_resume(c)
+                    cs = resume_checks(c, o)
+                    self.resume_obs.append((c, o))
+                    for p, r in o["splits"].items():
+                        nontriv.add(("resume", c["impl"], c["space"], c["k"], c["nb"], p, tuple(r[3])))
                 else:
                     cs, o = elbo_checks(c, None)
                     nontriv.add(("elbo", c["k"], c["nb"], tuple(o["batches"])))
@@ -436,7 +609,7 @@ class C34(C.Check):
         self.bad_cases = [meta[i][1] for i in bad]
         res.coverage.update({
             "evaluations": len(checks), "distinct_nontrivial": len(nontriv),
-            "rule": "SPD matrices B B^T + D with small-integer entries, diagonal ones, ones with two distinct eigenvalues (early breakdown), n = 2..6, integer start vectors (also inside invariant subspaces), order 1..n: alphas, basis vectors and every residual norm against the exact model; linear Gaussian models (3-5 data, 4-6 parameters), k < all eigenvalues in 1-3 batches: ELBO samples, lower_error, batch sizes fresh and resumed; distinct = (kind, n, order, breakdown) resp. (kind, k, batches)",
+            "rule": "SPD matrices B B^T + D with small-integer entries, diagonal ones, ones with two distinct eigenvalues (early breakdown), n = 2..6, integer start vectors (also inside invariant subspaces), order 1..n: alphas, basis vectors and every residual norm against the exact model; linear Gaussian models (3-5 data, 4-6 parameters), k < all eigenvalues in 1-3 batches: ELBO samples, lower_error, batch sizes fresh and resumed; resume suite: one-go run with saved eigensystem, then a resumed run from EVERY split point 1..k-1, nifty.re in signal and data space and nifty.cl, k < all and k = all eigenvalues: eigsh batch sizes against the model's schedule, exactly; distinct = (kind, n, order, breakdown) resp. (kind, k, batches) resp. (impl, space, k, batches, split, observed sizes)",
             "samples": [_js({k: v for k, v in c.items() if not k.startswith("_")}) for c in self.cases[:2]],
             "input_distribution": dist, "disagreements": len(bad), "exhaustive": False,
         })
@@ -448,7 +621,15 @@ class C34(C.Check):
         todo = [c for c in getattr(self, "bad_cases", [])]
         n_hints = len(todo)
         todo += [c for c in ctx.corpus() if c.get("kind") in ("slq", "elbo_full")]
-        todo += getattr(self, "cases", [])
+        todo += [c for c in getattr(self, "cases", []) if c.get("kind") != "resume"]
+        n_res = 0
+        for c, o in getattr(self, "resume_obs", []):
+            n_res += 1
+            f = resume_failure(c, o)
+            if f:
+                res.add_failing({"fn": "resume", "class": f[0], "impl": c["impl"], "space": c["space"]}, f[1], _js(c))
+                if len(res.failing) >= 3:
+                    break
         for i in range((6 if ctx.quick else 40) * budget):
             n = int(rng.integers(2, 7))
             diag = (i % 3 == 0)
@@ -480,7 +661,7 @@ class C34(C.Check):
                 if abs(a - b) > 1e-8 * max(1.0, abs(a)):
                     res.add_failing({"fn": "elbo", "class": "elbo-resume"}, "one-go ELBO %.12g, resumed ELBO %.12g" % (a, b),
                                     _js({k: v for k, v in c.items() if not k.startswith("_")}))
-        res.coverage["impl_property_evaluations"] = n
+        res.coverage["impl_property_evaluations"] = n + n_res
         res.coverage["oracle_distribution"] = stats
         shutil.rmtree(scratch(), ignore_errors=True)
 
